@@ -91,10 +91,13 @@ func VerifHarness_C08_family() {
 	cnt1 := []token{tNum(c1)}
 	if countForm == 1 {
 		f = append(f, tText("N"), tText("equ"), tNum(c1), tNL)
+		// a later, unrelated definition must not disturb the first
+		f = append(f, tText("STEP"), tText("equ"), tNum(5), tNL)
 		cnt1 = []token{tText("N")}
 	} else if countForm == 2 {
 		vAssume(c1 >= 1)
 		f = append(f, tText("N"), tText("equ"), tNum(c1-1), tNL)
+		f = append(f, tText("STEP"), tText("equ"), tNum(5), tNL)
 		cnt1 = []token{tText("N"), tSym("+"), tNum(1)}
 	}
 	if hasPre {
@@ -121,7 +124,16 @@ func VerifHarness_C08_family() {
 	}
 	f = append(f, tText("rof"), tNL)
 	if second {
-		f = append(f, tText("k"), tText("for"), tNum(c3), tNL)
+		if countForm >= 1 {
+			// (the label of an empty first block would become a second name of
+			// this EQU line: not a case the property speaks about)
+			vAssume(!(hasLabel && c1 == 0))
+			// the second block's count is an EQU defined between the blocks
+			f = append(f, tText("K3"), tText("equ"), tNum(c3), tNL)
+			f = append(f, tText("k"), tText("for"), tText("K3"), tNL)
+		} else {
+			f = append(f, tText("k"), tText("for"), tNum(c3), tNL)
+		}
 		f = append(f, vDatLine([]token{tText("k")}, []token{tNum(5)})...)
 		f = append(f, tText("rof"), tNL)
 	}
@@ -188,7 +200,7 @@ func VerifHarness_C08_family() {
 	want = append(want, dat(0, 9))
 	u = append(u, token{tokEOF, ""})
 
-	vUnwind(400)
+	vUnwind(3000)
 	wf, ef := vCompileTokens(f, cfg)
 	wu, eu := vCompileTokens(u, cfg)
 	vUnwind(64)
